@@ -740,26 +740,27 @@ def fp_drpcmanager_manager_Manager_manageStreams : List String :=
     "id:si", "id:ctx", "id:si", "id:stream", "u<-", "call:m.sigs.term.Signal", "id:m", "id:sigs", 
     "id:term", "id:Signal", "return"]
 def fp_drpcmanager_manager_Manager_manageStream : List String :=
-  ["select", "u<-", "call:m.sigs.term.Signal", "id:m", "id:sigs", "id:term", "id:Signal", "=err", 
-    "id:err", "call:m.sigs.term.Err", "id:m", "id:sigs", "id:term", "id:Err", "if", "call:errors.Is", 
-    "id:errors", "id:Is", "id:err", "id:io", "id:EOF", "=err", "id:err", "id:context", "id:Canceled", 
-    "call:stream.Cancel", "id:stream", "id:Cancel", "id:err", "u<-", "id:m", "id:sfin", "call:drpcdebug.Event", 
-    "id:drpcdebug", "id:Event", "id:m", "s:sfin.recv", "call:stream.ID", "id:stream", "id:ID", 
-    "call:drpcdebug.Event", "id:drpcdebug", "id:Event", "id:m", "s:sem.rel", "0", "call:m.sem.Recv", 
-    "id:m", "id:sem", "id:Recv", "u<-", "id:m", "id:sfin", "call:drpcdebug.Event", "id:drpcdebug", 
+  ["call:drpcdebug.Point", "id:drpcdebug", "id:Point", "s:manager.manageStream.enter", "select", 
+    "u<-", "call:m.sigs.term.Signal", "id:m", "id:sigs", "id:term", "id:Signal", "=err", "id:err", 
+    "call:m.sigs.term.Err", "id:m", "id:sigs", "id:term", "id:Err", "if", "call:errors.Is", "id:errors", 
+    "id:Is", "id:err", "id:io", "id:EOF", "=err", "id:err", "id:context", "id:Canceled", "call:stream.Cancel", 
+    "id:stream", "id:Cancel", "id:err", "u<-", "id:m", "id:sfin", "call:drpcdebug.Event", "id:drpcdebug", 
     "id:Event", "id:m", "s:sfin.recv", "call:stream.ID", "id:stream", "id:ID", "call:drpcdebug.Event", 
     "id:drpcdebug", "id:Event", "id:m", "s:sem.rel", "0", "call:m.sem.Recv", "id:m", "id:sem", 
-    "id:Recv", "u<-", "call:ctx.Done", "id:ctx", "id:Done", "call:m.log", "id:m", "id:log", "s:CANCEL", 
-    "id:stream", "id:String", "if", "id:m", "id:opts", "id:SoftCancel", "if", "=busy", "=err", 
-    "id:busy", "id:err", "call:stream.SendCancel", "id:stream", "id:SendCancel", "call:ctx.Err", 
-    "id:ctx", "id:Err", "!=", "id:err", "id:nil", "call:m.terminate", "id:m", "id:terminate", "id:err", 
-    "if", "id:busy", "call:m.log", "id:m", "id:log", "s:BUSY", "id:stream", "id:String", "call:m.terminate", 
-    "id:m", "id:terminate", "call:ctx.Err", "id:ctx", "id:Err", "call:stream.Cancel", "id:stream", 
-    "id:Cancel", "call:ctx.Err", "id:ctx", "id:Err", "u<-", "id:m", "id:sfin", "call:drpcdebug.Event", 
-    "id:drpcdebug", "id:Event", "id:m", "s:sfin.recv", "call:stream.ID", "id:stream", "id:ID", 
-    "call:drpcdebug.Event", "id:drpcdebug", "id:Event", "id:m", "s:sem.rel", "0", "call:m.sem.Recv", 
-    "id:m", "id:sem", "id:Recv", "if", "u!", "call:stream.Cancel", "id:stream", "id:Cancel", "call:ctx.Err", 
-    "id:ctx", "id:Err", "call:m.log", "id:m", "id:log", "s:UNFIN", "id:stream", "id:String", "call:m.terminate", 
+    "id:Recv", "u<-", "id:m", "id:sfin", "call:drpcdebug.Event", "id:drpcdebug", "id:Event", "id:m", 
+    "s:sfin.recv", "call:stream.ID", "id:stream", "id:ID", "call:drpcdebug.Event", "id:drpcdebug", 
+    "id:Event", "id:m", "s:sem.rel", "0", "call:m.sem.Recv", "id:m", "id:sem", "id:Recv", "u<-", 
+    "call:ctx.Done", "id:ctx", "id:Done", "call:m.log", "id:m", "id:log", "s:CANCEL", "id:stream", 
+    "id:String", "if", "id:m", "id:opts", "id:SoftCancel", "if", "=busy", "=err", "id:busy", "id:err", 
+    "call:stream.SendCancel", "id:stream", "id:SendCancel", "call:ctx.Err", "id:ctx", "id:Err", 
+    "!=", "id:err", "id:nil", "call:m.terminate", "id:m", "id:terminate", "id:err", "if", "id:busy", 
+    "call:m.log", "id:m", "id:log", "s:BUSY", "id:stream", "id:String", "call:m.terminate", "id:m", 
+    "id:terminate", "call:ctx.Err", "id:ctx", "id:Err", "call:stream.Cancel", "id:stream", "id:Cancel", 
+    "call:ctx.Err", "id:ctx", "id:Err", "u<-", "id:m", "id:sfin", "call:drpcdebug.Event", "id:drpcdebug", 
+    "id:Event", "id:m", "s:sfin.recv", "call:stream.ID", "id:stream", "id:ID", "call:drpcdebug.Event", 
+    "id:drpcdebug", "id:Event", "id:m", "s:sem.rel", "0", "call:m.sem.Recv", "id:m", "id:sem", 
+    "id:Recv", "if", "u!", "call:stream.Cancel", "id:stream", "id:Cancel", "call:ctx.Err", "id:ctx", 
+    "id:Err", "call:m.log", "id:m", "id:log", "s:UNFIN", "id:stream", "id:String", "call:m.terminate", 
     "id:m", "id:terminate", "call:ctx.Err", "id:ctx", "id:Err", "call:m.log", "id:m", "id:log", 
     "s:CLEAN", "id:stream", "id:String", "u<-", "id:m", "id:sfin", "call:drpcdebug.Event", "id:drpcdebug", 
     "id:Event", "id:m", "s:sfin.recv", "call:stream.ID", "id:stream", "id:ID", "call:drpcdebug.Event", 
